@@ -353,6 +353,7 @@ def main(argv=None) -> int:
     reported = []
     for key, b in sorted(total.buckets.items(), key=lambda kv: kv[1]["size"]):
         case = b["case"]
+        generated = case   # as the generator produced it (the shrunk form may leave the generator's domain; triage needs both)
         used = 0
         if not a.no_shrink and n_viol < 6 and not getattr(mod, "NO_SHRINK", False):
             try:
@@ -362,7 +363,8 @@ def main(argv=None) -> int:
         path = os.path.join(found_dir, f"{pid}-{key}.json")
         with open(path, "w", encoding="utf-8") as fh:
             json.dump({"property": pid, "clause": b["clause"], "site": b["site"], "detail": b["detail"],
-                       "hits": b["count"], "shrink_evals": used, "case": case}, fh, indent=1, default=repr)
+                       "hits": b["count"], "shrink_evals": used, "case": case,
+                       **({"case_as_generated": generated} if used else {})}, fh, indent=1, default=repr)
         n_viol += 1
         reported.append({"clause": b["clause"], "site": b["site"], "hits": b["count"], "replay": path})
         print(f"VIOLATION property={pid} replay={path}")
